@@ -79,9 +79,13 @@ def compress_case(ctx, idx, rng):
     if idx % 24 == 15:
         kind = 'tall-weak'
     psi = make_state(rng, kind, L, d)
-    if idx % 9 == 4 and kind in ('random', 'over', 'sectors'):
-        # tensors rescaled to LOOK canonical (Frobenius norm^2 = bond dimension, or unit-norm slices) without being isometries
-        kind = kind + '+' + gen.pseudo_canonical(rng, psi)
+    if idx % 9 == 4:
+        # tensors rescaled to LOOK canonical (Frobenius norm^2 = bond dimension, or unit-norm slices) without being isometries; every ninth case, cycling
+        # through the four coincidences (a generic random state is used when the drawn kind has a prescribed spectrum)
+        if kind not in ('random', 'over', 'sectors'):
+            kind = 'random'
+            psi = make_state(rng, kind, L, d)
+        kind = kind + '+' + gen.pseudo_canonical(rng, psi, ('frob-left', 'frob-right', 'slice-left', 'slice-right')[(idx // 9) % 4])
     L = psi.nsites
     d = len(psi.qd)
     v0 = refs.dense_state(psi.A)
